@@ -229,10 +229,10 @@ def gen_history(rng):
         elif r < 0.10:
             known = list(s.clients)
             x = rng.choice(known) if known and rng.random() < 0.8 else s.next_client + rng.randint(0, 3)
-            if rng.random() < 0.85:
+            if rng.random() < 0.85 or st["conn"] == 0:
                 new_conn(x)
             else:
-                s.add_conn(rng.randrange(st["conn"] + 1), x)      # an existing connection id: no effect
+                s.add_conn(rng.randrange(st["conn"]), x)          # an existing connection id: no effect
         elif r < 0.34:
             q = rng.random()
             retry = [c for c in range(s.ncons) if s.phase.get(c) == 1]
@@ -314,7 +314,7 @@ def gen_history(rng):
 def gen_provider(rng, tier):
     yield regression_case()
     yield from gen_enumeration()
-    total = 450 if tier == "quick" else 12000
+    total = 400 if tier == "quick" else 12000
     for _ in range(total):
         yield gen_history(rng)
 
@@ -387,7 +387,7 @@ def gen_consumer(rng, tier):
             shapes = [[g], [b], [14], [], [g, g]]
             return [[2, o, p, v, cp, shapes[h], 20] for (o, p, v, cp, h) in chunk] + [[6, 1], [2, 2, 1, 0, 0, [g], 21]]
         yield gen_consumer_case(rng, ops)
-    total = 250 if tier == "quick" else 6000
+    total = 200 if tier == "quick" else 6000
     for _ in range(total):
         yield gen_consumer_case(rng)
 
